@@ -89,8 +89,54 @@ func decHeader(v Val) fmtrtsp.Header {
 	return h
 }
 
+// the parsed URL as observed: fields, then Hostname(), Port(), String()
+func encURL(u *url.URL) Val {
+	user := L()
+	if u.User != nil {
+		user = L(S(u.User.String()))
+	}
+	query := L()
+	if u.ForceQuery || u.RawQuery != "" {
+		query = L(S(u.RawQuery))
+	}
+	return L(S(u.Scheme), user, S(u.Host), S(u.EscapedPath()), query, S(u.Hostname()), S(u.Port()), S(u.String()))
+}
+
+// printSurl prints a structured URL of the case: (0) | (1 path query?) | (2 scheme user? host port? path query?)
+func printSurl(v Val) string {
+	opt := func(o Val, pre string) string {
+		if len(o.List()) == 0 {
+			return ""
+		}
+		return pre + o.At(0).Str()
+	}
+	switch v.At(0).Int() {
+	case 0:
+		return "*"
+	case 1:
+		return v.At(1).Str() + opt(v.At(2), "?")
+	}
+	s := v.At(1).Str() + "://"
+	if ui := v.At(2).List(); len(ui) == 1 {
+		s += ui[0].Str() + "@"
+	} else if len(ui) >= 2 {
+		s += ui[0].Str() + ":" + ui[1].Str() + "@"
+	}
+	h := v.At(3)
+	if h.At(0).Int() == 0 {
+		s += h.At(1).Str()
+	} else {
+		s += "[" + h.At(1).Str()
+		if len(h.List()) > 2 {
+			s += "%25" + h.At(2).Str()
+		}
+		s += "]"
+	}
+	return s + opt(v.At(4), ":") + v.At(5).Str() + opt(v.At(6), "?")
+}
+
 func encRequest(q *fmtrtsp.Request) Val {
-	return L(I(0), S(q.Method), S(q.URL.String()), S(q.Proto), encHeader(q.Header), S(q.Body))
+	return L(I(0), S(q.Method), encURL(q.URL), S(q.Proto), encHeader(q.Header), S(q.Body))
 }
 func encResponse(p *fmtrtsp.Response) Val {
 	return L(I(1), S(p.Proto), I(int64(p.StatusCode)), S(p.Status), encHeader(p.Header), S(p.Body))
@@ -183,7 +229,7 @@ func init() {
 		for _, it := range c.At(3).List() {
 			switch it.At(0).Int() {
 			case 0:
-				u, err := url.Parse(it.At(2).Str())
+				u, err := url.Parse(printSurl(it.At(2)))
 				if err != nil {
 					return L(S("!badcase"), S(err.Error()))
 				}
@@ -208,6 +254,42 @@ func init() {
 		cr := &chunkReader{data: data, sizes: decSizes(c.At(2))}
 		evs, fin := readLoop(0, cfg, int(c.At(1).Int()), cr)
 		return L(B(data), L(evs...), I(fin), I(cr.pulled))
+	}
+	// structured URL -> (printed, url.ParseRequestURI of it, the URL of the request read back by ReadRequest)
+	commands["C14_urllaw"] = func(c Val) Val {
+		s := printSurl(c)
+		g, err := url.ParseRequestURI(s)
+		if err != nil {
+			return L(S(s), S("!parse "+err.Error()))
+		}
+		// the pull client emits its configured URL verbatim: url.Parse + Request.Write
+		cfgURL, err := url.Parse(s)
+		if err != nil {
+			return L(S(s), S("!parse "+err.Error()))
+		}
+		method := "DESCRIBE"
+		if s == "*" {
+			method = "OPTIONS"
+		}
+		var wire bytes.Buffer
+		(&fmtrtsp.Request{Method: method, URL: cfgURL, Header: fmtrtsp.Header{"CSeq": []string{"1"}}}).Write(&wire)
+		q, err := fmtrtsp.ReadRequest(bufio.NewReader(bytes.NewReader(wire.Bytes())))
+		if err != nil {
+			return L(S(s), encURL(g), S("!read "+err.Error()))
+		}
+		return L(S(cfgURL.String()), encURL(g), encURL(q.URL))
+	}
+	// structured URL -> (URL the pull client keeps, URL of its first request read back by ReadRequest)
+	commands["C14_pullurl"] = func(c Val) Val {
+		kept, wire, err := svc.VerifPullClientURL("/verif/c14", printSurl(c))
+		if err != nil {
+			return L(S("!new " + err.Error()))
+		}
+		q, err := fmtrtsp.ReadRequest(bufio.NewReader(bytes.NewReader(wire)))
+		if err != nil {
+			return L(encURL(kept), S("!read "+err.Error()))
+		}
+		return L(encURL(kept), encURL(q.URL))
 	}
 	// canonicalKV through Header.Add (which applies it to the key)
 	commands["C14_canonkv"] = func(c Val) Val {
